@@ -146,7 +146,9 @@ func fieldKey(fa *ssa.FieldAddr) string {
 	return fmt.Sprintf("%s.%d", st.String(), fa.Field)
 }
 
-func (g *Graph) isRepo(fn *ssa.Function) bool { return fn != nil && g.P.IsRepoFunc(fn) && fn.Blocks != nil }
+func (g *Graph) isRepo(fn *ssa.Function) bool {
+	return fn != nil && g.P.IsRepoFunc(fn) && fn.Blocks != nil
+}
 
 // ResolveFunc resolves a function-typed value to targets. ok=false means the
 // value could not be resolved structurally.
